@@ -1,12 +1,12 @@
-\* non-vacuity: BuildEndpointPolicyTree as it was before the fix (method map found by a Lookup of the new URL)
+\* non-vacuity: the insert as it was before the fix (a host label and a path segment of the same text share a node)
 \* must be refuted
 CONSTANTS
   MaxBody = 1
   MaxDecl = 2
   MaxUrl = 2
-  ReuseOnLookup = TRUE
+  ReuseOnLookup = FALSE
   FabricatedNorm = FALSE
-  RejectCollision = TRUE
+  RejectCollision = FALSE
   EmptyParam = FALSE
   WildHostCheck = TRUE
   KF_Shadow = TRUE
